@@ -12,6 +12,7 @@
 #include <stdio.h>
 #include <string.h>
 #include <fcntl.h>
+#include <sys/stat.h>
 #include <unistd.h>
 #include <algorithm>
 #include <string>
@@ -124,12 +125,15 @@ static void doOp(const Op& op) {
   case F_OPEN: {
     static const unsigned fl[] = {File::readFlag, File::writeFlag, File::readFlag | File::writeFlag, File::writeFlag | File::appendFlag, File::writeFlag | File::openFlag, File::readFlag | File::writeFlag | File::openFlag, File::readFlag | File::writeFlag | File::appendFlag};
     unsigned flags = fl[op.a[2] % 7]; std::string nm = names[op.a[1] % NNAMES];
+    if (op.a[3] % 12 == 0) { nm = "fifo"; static const unsigned ff[] = {File::readFlag | File::writeFlag | File::appendFlag, File::readFlag | File::writeFlag | File::openFlag, File::readFlag | File::writeFlag | File::appendFlag | File::openFlag}; flags = ff[(op.a[3] / 12) % 3]; probe("open_fifo"); }
     { Host h; if (simfs::rStatIsDir(T(nm).c_str())) return; }   // opening a directory as a file is outside the property (lseek on a directory descriptor is file-system specific)
     closeSlot(sl);
     bool ok = sl.f->open(S(T(nm)), flags);
+    if (!ok && sl.f->isOpen()) fail("C19/failed_open_left_object_open", "File::open('%s', flags %u) returned false but isOpen() is true", nm.c_str(), flags);
     if (!ok && faulted()) { checkFailedOp(what, pre, nm); C.stop = true; return; }
-    Host h; int rfd = simfs::rOpen(M(nm).c_str(), refFlags(flags), 0644); if (rfd >= 0 && (flags & File::appendFlag)) simfs::rSeek(rfd, 0, SEEK_END);
+    Host h; int rfd = simfs::rOpen(M(nm).c_str(), refFlags(flags), 0644); if (rfd >= 0 && (flags & File::appendFlag) && simfs::rSeek(rfd, 0, SEEK_END) < 0) { simfs::rClose(rfd); rfd = -1; probe("open_append_unseekable"); }
     if (ok != (rfd >= 0)) { if (rfd >= 0) simfs::rClose(rfd); fail("C19/open_result", "File::open('%s', flags %u) returned %d, the same open with POSIX calls %s", nm.c_str(), flags, ok, rfd >= 0 ? "succeeds" : "fails"); }
+    if (ok && nm == "fifo") { sl.f->close(); simfs::rClose(rfd); break; }      /* reading an empty FIFO would block: opened and closed only */
     if (ok) { sl.open = true; sl.rfd = rfd; sl.name = nm; }
     break; }
   case F_WRITE: case F_WRITESTR: {
@@ -198,6 +202,8 @@ static void doOp(const Op& op) {
   case F_EXISTS: { bool r = File::exists(S(T(n1))); Host h; if (faulted()) return; if (r != (simfs::kindOf(M(n1)) != 0)) fail("C19/exists_result", "File::exists('%s') returned %d", n1.c_str(), r); break; }
   case F_SYMLINK: { static const char* targets[] = {"a", "../o/keep", "../o/sub", "nowhere", "d"}; std::string tg = targets[op.a[2] % 5]; bool ok = File::createSymbolicLink(S(tg), S(T(n1))); if (!ok) { checkFailedOp(what, pre, n1); if (faulted()) { C.stop = true; return; } } Host h; std::string mtg = tg; if (mtg.compare(0, 5, "../o/") == 0) mtg = "../p/" + mtg.substr(5); bool rok = simfs::symlinkTo(mtg, M(n1)); if (ok != rok) fail("C19/symlink_result", "createSymbolicLink returned %d, symlink(2) on the mirror %s", ok, rok ? "succeeds" : "fails"); break; }
   case D_CREATE: {
+    /* a third of the creations name the directory through "." / ".." components (only here: for the other operations such a path names a sibling tree) */
+    { static const char* dotNames[] = {"n/m/.", "n/q/..", "n/q/../r", "a/sub/.", "d/e/.", "d/k/./j", "w/..", "d/e/f/.."}; if (op.a[2] % 3 == 0) { n1 = dotNames[(op.a[2] / 3) % 8]; probe("create_with_dot_components"); } }
     bool ok = Directory::create(S(T(n1)));
     Host h; bool isdir = simfs::rStatIsDir(T(n1).c_str()) != 0;
     // under an injected fault the library may be unable to see an existing directory, but only if its own FINAL stat() was the call that failed
@@ -242,6 +248,7 @@ static void buildTree(const std::string& r, int variant, const std::string& out)
   if (variant & 4) simfs::symlinkTo("nowhere", r + "/dangling");
   if (variant & 8) simfs::symlinkTo("a", r + "/lf");
   if (variant & 16) simfs::mkdirs(r + "/x/y/z");
+  mkfifo((r + "/fifo").c_str(), 0644);     /* something that can be opened but not positioned; only File::open for reading AND writing ever touches it (any other open of a FIFO blocks) */
 }
 
 static void mainTask(void*) {
